@@ -12,7 +12,7 @@ From ReqV Require Import Lib.Bytes Model.Decode Model.BodyStages Model.H1Resp Mo
   Model.H2Info Proofs.H2InfoProofs Model.HeaderSlots Proofs.HeaderSlotsProofs Proofs.C07DigestAlg
   Model.H3Control Proofs.H3ControlProofs Proofs.C07H2Order
   Model.H2Wake Proofs.H2WakeProofs Model.H3Retry Proofs.H3RetryProofs.
-From ReqV Require Model.H2GoAway Proofs.H2GoAwayProofs Model.H2HdrLimit Proofs.H2HdrLimitProofs.
+From ReqV Require Model.H2GoAway Proofs.H2GoAwayProofs Model.H2HdrLimit Proofs.H2HdrLimitProofs Model.H2Ping Proofs.H2PingProofs.
 From ReqV Require Model.Digest Gen.C07Consts Model.H3Frame Model.H3Limits Proofs.H3FrameProofs Proofs.H3LimitsProofs.
 From Coq Require Import Lia.
 Local Open Scope nat_scope.
@@ -415,6 +415,26 @@ Theorem C07_h2_framer_before_copy_refuted :
   snd (fst (H2HdrLimit.nth_conn false 1 t)) = 4096%N /\ snd (fst (H2HdrLimit.nth_conn true 0 t)) = 4096%N.
 Proof. exact H2HdrLimitProofs.framer_before_copy_refuted. Qed.
 Print Assumptions C07_h2_framer_before_copy_refuted.
+
+(* ---------- HTTP/2: pings and their acknowledgements; interim block with END_STREAM ---------- *)
+
+(* every order of pings sent, acknowledgements (repeated, unknown payloads) and Ping calls returning:
+   the read loop never closes a ping's channel twice *)
+Theorem C07_h2_ping_ack_never_double_close : forall evs, H2Ping.prun true [] evs <> None.
+Proof. exact H2PingProofs.ping_ack_never_double_close0. Qed.
+Print Assumptions C07_h2_ping_ack_never_double_close.
+
+Theorem C07_h2_ping_entry_kept_refuted :
+  H2Ping.prun false [] [H2Ping.PSent 7; H2Ping.PAck 7; H2Ping.PAck 7; H2Ping.PReturns 7] = None /\
+  H2Ping.prun false [] [H2Ping.PSent 7; H2Ping.PAck 7; H2Ping.PReturns 7; H2Ping.PAck 7] <> None /\
+  H2Ping.prun true [] [H2Ping.PSent 7; H2Ping.PAck 7; H2Ping.PAck 7; H2Ping.PReturns 7] <> None.
+Proof. exact H2PingProofs.ping_entry_kept_refuted. Qed.
+Print Assumptions C07_h2_ping_entry_kept_refuted.
+
+Theorem C07_h2_interim_end_stream_is_error : forall b s code,
+  (100 <= code <= 199)%Z -> h2_info_step b s code true = IErrEndStream.
+Proof. exact h2_interim_end_stream_is_error. Qed.
+Print Assumptions C07_h2_interim_end_stream_is_error.
 
 (* ---------- translator tie: limits and tables regenerated from the source ---------- *)
 
